@@ -253,6 +253,7 @@ func findRefSegMetaFromTime(a *asset, rep *RepData, time uint64, cfg *ResponseCo
 
 	// Check interval validity
 	segAvailTimeS := float64(refEndTime) / float64(refRep.MediaTimescale)
+	segAvailTimeS += float64(cfg.StartTimeS) // media time is relative to the stream start
 	nowS := float64(nowMS) * 0.001
 	err := CheckTimeValidity(segAvailTimeS, nowS, float64(*cfg.TimeShiftBufferDepthS), cfg.getAvailabilityTimeOffsetS())
 	if err != nil {
